@@ -181,6 +181,12 @@ def _floyd(M):
         return bct.distance_wei_floyd(M.copy())
 
 
+def _transition(M):
+    B = (M != 0).astype(float)
+    rs = B.sum(axis=1, keepdims=True)
+    return B / np.where(rs == 0, 1, rs)
+
+
 def sp_pairs(pairs):
     def b(mats):
         for mname, M in mats.items():
@@ -220,7 +226,9 @@ SPECIAL = {
     'corr_flat_dir': sp_pairs(lambda mn, M: [('a1a2', [M.copy(), M.T.copy() * 0.5 + 0.1], {})]),
     'dice_pairwise_und': sp_pairs(lambda mn, M: [('a1a2', [M.copy(), np.roll(M, 1, axis=0)], {})]),
     'resource_efficiency_bin': sp_pairs(lambda mn, M: [('lamb', [M.copy(), 0.5], {}),
-                                                        ('spl', [M.copy(), 0.5], {'spl': bct.distance_bin(M)})]),
+                                                        ('spl', [M.copy(), 0.5], {'spl': bct.distance_bin(M)}),
+                                                        ('m', [M.copy(), 0.5], {'m': _transition(M)}),
+                                                        ('spl+m', [M.copy(), 0.5], {'spl': bct.distance_bin(M), 'm': _transition(M)})]),
     'cuberoot': sp_pairs(lambda mn, M: [('x', [M.copy()], {})]),
     'reorder_mod': sp_pairs(lambda mn, M: [(k, [M.copy(), v.copy()], {}) for k, v in community_vectors(len(M)).items()]),
     'align_matrices': sp_pairs(lambda mn, M: [('m1m2', [M.copy(), np.roll(np.roll(M, 1, 0), 1, 1)], {'H': 30, 'Hbrk': 3})]),
